@@ -94,6 +94,7 @@ def run_prelude(it, g, ffp):
                     raise
     finally:
         it.fn_stack.pop()
+    return ofn, env
 
 
 def _build(it, scn):
@@ -195,4 +196,42 @@ def sequence_obligation(first, second):
                                    label="second call on the same graph (fixed set changed from %s to %s): " % (sorted(first.fixed | ({0} if first.ffp else set())), sorted(second.fixed)))
         st["scenario"] = "%s -> %s" % (first.name, second.name)
         return st
+    return lambda pkg: run_obligation(pkg, fn)
+
+
+def update_sweep_obligation(scn, sweep_stmts, dx_names):
+    """C03-d / C06-d, semantic form: the statements of optimize() that write poses are translated on a graph shape with a symbolic
+    step vector dx: every free vertex must become pose [+] dx[g : g + c], every fixed vertex must keep its pose."""
+    from .interp import Pose
+
+    def fn(it):
+        g, verts, dims, spec = _build(it, scn)
+        ofn, env = run_prelude(it, g, scn.ffp)
+        n = sum(dims)
+        dx = sym_vec("dx", n)
+        for name in dx_names:
+            env[name] = dx
+        old = [Pose(v.fields["pose"].cls, list(v.fields["pose"].data)) for v in verts]
+        old_objs = [v.fields["pose"] for v in verts]
+        it.fn_stack.append(ofn)
+        try:
+            for st in sweep_stmts:
+                it.stmt(st, env)
+        finally:
+            it.fn_stack.pop()
+        fixed = set(scn.fixed) | ({0} if scn.ffp else set())
+        offs = [sum(dims[:k]) for k in range(len(dims))]
+        for k, v in enumerate(verts):
+            now = v.fields.get("pose")
+            if not isinstance(now, Pose) or now.cls != old[k].cls:
+                raise ObFail("after the update vertex %d holds %r instead of a %s" % (k, now, old[k].cls))
+            if k in fixed:
+                if any(a != b for a, b in zip(now.data, old[k].data)) or len(now.data) != len(old[k].data):
+                    raise ObFail("the pose of the fixed vertex %d is rewritten by the update (with the solver's value for its block)" % k)
+                continue
+            inc = Arr(dx.data[offs[k]:offs[k] + dims[k]], 1)
+            exp = it.call_method(old[k], "__iadd__", [inc])
+            if len(now.data) != len(exp.data) or any(a != b for a, b in zip(now.data, exp.data)):
+                raise ObFail("free vertex %d is not updated to pose [+] dx[%d:%d]" % (k, offs[k], offs[k] + dims[k]))
+        return dict(scenario=scn.name, fixed=sorted(fixed), n=n)
     return lambda pkg: run_obligation(pkg, fn)
